@@ -47,7 +47,7 @@ class C07(Prop):
 
     def cases(self, rng, tier):
         out = []
-        n = 1500 if tier == "thorough" else 120
+        n = 8000 if tier == "thorough" else 120
         for _ in range(n):
             out.append(Case("run", self.history(rng, rng.choice(SCRIPTS), rng.randint(3, 10)), "scenario"))
         for _ in range(n):
